@@ -41,5 +41,9 @@ def main(prop, path):
         print("CompleteConsumer on the decoded instruction list ->", matched, hits)
         print("REPRODUCED" if still else "not reproduced on the current tree")
         return 1 if still else 0
+    if kind == "ch":
+        from vlib import ch
+
+        return ch.replay_record(rec)
     mod = __import__(f"checks.{prop.lower()}", fromlist=["replay"])
     return mod.replay(rec)
